@@ -57,7 +57,23 @@ EXTRA_DOCS = [
     "@comment{a}@comment{a}",  # structurally equal blocks (same text, same line)
     "@preamble{p}@preamble{p}@comment{a}@preamble{p}",
     "% same\n@a{k1, t = {x}}\n% same\n@a{k2, t = {x}}\n% same",
+    # enclosed values whose content is the name of a defined @string, in fields with well-known keys
+    '@string{jan = "Janvier"}\n@string{feb = {F}}\n@a{k, month = {jan}, note = "jan", year = {feb}}\n@b{j, month = "jan", pages = "feb", number = jan}',
+    '@a{k, month = {jan}, year = "1990", volume = {12}, pages = {mar}}\n@string{mar = {M}}',
 ]
+
+
+def _nests():
+    """Braced and quoted values with nesting depth 1..8 next to sibling groups (before, after, both)."""
+    out = []
+    for d in range(1, 9):
+        n = "".join("{" + chr(98 + i) + " " for i in range(d)) + "x" + "}" * d
+        for v in ("{a %s}" % n, "{%s {h}}" % n, "{{h} %s}" % n, "{a %s {h} %s z}" % (n, n), '"%s {h}"' % n, "{%s}" % n, n):
+            out.append("@a{k, t = %s, u = {v}}" % v)
+    return out
+
+
+EXTRA_DOCS += _nests()
 
 
 def documents(tier):
